@@ -36,6 +36,17 @@ Theorem C15_source_nonce_check : forall nonce_nil has_prefix,
 Proof. exact gen_nonce_check. Qed.
 Print Assumptions C15_source_nonce_check.
 
+(* smtp.Client.Auth ends its loop with the result nil whenever Next returns (nil, nil) - also on a 334 (inherited from
+   net/smtp; modelled in AuthLoop.auth_loop).  For scramAuth this cannot happen on a challenge: *)
+Theorem C15_source_error_returns_constructed : Gen.scram_error_returns_constructed = true.
+Proof. exact gen_error_returns_constructed. Qed.
+Print Assumptions C15_source_error_returns_constructed.
+
+Theorem C15_challenge_never_ends_exchange : forall H HMAC hsize precis id s msg s',
+  m_next (scram_mech H HMAC hsize precis gen_scram_cfg id) s msg true <> (s', Some None).
+Proof. exact scram_challenge_never_nil. Qed.
+Print Assumptions C15_challenge_never_ends_exchange.
+
 (* For every reply script: success implies that the script has the shape
      l0 ++ [empty challenge e] ++ tail ++ [success reply] ++ rest
    where [tail] contains NO further empty challenge (the exchange started by [e] is the one RUNNING when the success reply
